@@ -1,6 +1,7 @@
 """C15: decorator-with-options forms configure exactly like the direct forms; a function decorated
 with async_background_batcher gives every event loop its own independent batching."""
 import copy
+import itertools
 import json
 import random
 
@@ -83,6 +84,7 @@ def option_sets(rng):
 def batcher_cases(rng, n):
     out = []
     base = batchercomp.gen(rng, n, 6, behaviours=False, keys=3, durations=True) + batchercomp.trickle_burst(rng, n // 3)
+    base += [dict(sc, form='class') for sc in batchercomp.failed_then_retry()[::3]]
     osets = option_sets(rng)
     for i, sc in enumerate(base):
         opts = osets[i % len(osets)] if i < n else dict(sc['opts'])
@@ -147,6 +149,25 @@ def multiloop_cases(rng, n):
         out.append({'form': rng.choice(['deco_direct', 'deco_options']), 'opts': opts, 'calls': calls,
                     'batch_dur': 1.0, 'loops': loops,
                     'strategy': {'kind': 'random', 'seed': rng.randrange(1 << 30), 'stick': 0.5}})
+    return out
+
+
+def paused_loop_cases():
+    """One decorated batcher, two loops alive at the same time: the first loop's thread leaves it for a while (it is
+    not running, nothing is pending on it), the second loop makes its first call in that window, then the first loop
+    asks again for a key it still retains: served from its own retention cache, no new work on that loop."""
+    out = []
+    for form, R, gap, arg2 in itertools.product(['deco_direct', 'deco_options'], [20.0, 40.0], [1.0, 3.0], [1, 2]):
+        bt = 4.0
+        opts = {'max_batch_size': 2, 'max_concurrent_batches': 1, 'batch_timeout': bt, 'retention_timeout': R}
+        p0, p1 = bt + 2.0, bt + 2.0 + 2 * gap + 1.0
+        calls = [{'i': 1, 'at': 0.0, 'arg': 1, 'loop': 'L1'},
+                 {'i': 2, 'at': p0 + gap - (bt + 1.0), 'arg': arg2, 'loop': 'L2'},     # relative to L2's start
+                 {'i': 3, 'at': p1 + 1.0, 'arg': 1, 'loop': 'L1'}]
+        loops = [{'name': 'L1', 'start': 0.0, 'end': p1 + 3 * bt + 5.0, 'pause': [p0, p1]},
+                 {'name': 'L2', 'start': bt + 1.0, 'end': 3 * bt + 8.0}]
+        out.append({'form': form, 'opts': opts, 'calls': calls, 'batch_dur': 1.0, 'loops': loops,
+                    'strategy': {'kind': 'replay', 'prefix': []}})
     return out
 
 
@@ -223,7 +244,7 @@ def run(ctx):
     res = run_group(ctx, 'harness.drivers.pure', 'pure', 'KeysTrace', flat, 'cache_forms', None)
     compare_forms(ctx, [(t[0], res[2 * k], t[1], res[2 * k + 1]) for k, t in enumerate(ops_cases)], 'cache_forms')
     # 4. one decorated batcher, several loops: each loop's projection satisfies the contract on its own
-    ml = multiloop_cases(rng, 300 if q else 5000)
+    ml = multiloop_cases(rng, 300 if q else 5000) + paused_loop_cases()
     results = [None] * len(ml)
     for i, sc, r in pool.run_many('harness.drivers.batcher', ml, wall_timeout=12.0):
         results[i] = r
